@@ -12,6 +12,7 @@ import (
 	"crypto/tls"
 	"crypto/x509"
 	"crypto/x509/pkix"
+	"encoding/json"
 	"encoding/pem"
 	"fmt"
 	"math/big"
@@ -28,7 +29,18 @@ import (
 
 func init() {
 	checks["C30"] = checkC30
-	replays["C30"] = opsReplay("tls", runTLSOps, func(r *Result, ops, impl []string) { tlsOracle(r, ops, impl) })
+	c30ops := opsReplay("tls", runTLSOps, func(r *Result, ops, impl []string) { tlsOracle(r, ops, impl) })
+	replays["C30"] = func(r *Result, raw json.RawMessage) {
+		var rp struct {
+			Ops []string `json:"ops"`
+		}
+		json.Unmarshal(raw, &rp)
+		if len(rp.Ops) > 0 && rp.Ops[0] == "tls foreign-ca" {
+			foreignCAProbe(r)
+			return
+		}
+		c30ops(r, raw)
+	}
 }
 
 type pki struct {
@@ -128,9 +140,10 @@ func (p *pki) dial(port int, v uint16, cert *tls.Certificate) (bool, uint16, str
 var thePKI *pki
 
 // ops:  tls validate <min> <max>         -> 1/0
-//       tls admits <gomin> <min> <max> <v> -> 1/0    (real handshake at version v)
-//       tls accepts <clientAuth> <presents> <chainOk> -> 1/0 (real handshake with that client certificate)
-//       tls rotate                        -> new/old
+//
+//	tls admits <gomin> <min> <max> <v> -> 1/0    (real handshake at version v)
+//	tls accepts <clientAuth> <presents> <chainOk> -> 1/0 (real handshake with that client certificate)
+//	tls rotate                        -> new/old
 func runTLSOps(ops []string) []string {
 	if thePKI == nil {
 		thePKI = newPKI()
@@ -256,6 +269,7 @@ func tlsOracle(r *Result, ops, impl []string) {
 func mustAtoi(s string) int { v, _ := strconv.Atoi(s); return v }
 
 func checkC30(r *Result, rng *rand.Rand, thorough bool) {
+	foreignCAProbe(r)
 	r.Rule = "all 25 MinVersion x MaxVersion combinations in {unset, 1.0, 1.1, 1.2, 1.3} (Validate decision compared), every accepted one started as a real server and dialled by clients forcing 1.0, 1.1, 1.2 and 1.3 (crypto/tls default minimum lowered with tls10server=1); ClientAuth 0..4 x {no cert, self-signed, CA-signed} with a NULL call after the handshake; certificate rotation through GetExportOptions().TLS.ReloadCertificates(), right after Listen and after an UpdateExportOptions round trip; finite space, enumerated completely; every case non-trivial"
 	vers := []int{0, tls.VersionTLS10, tls.VersionTLS11, tls.VersionTLS12, tls.VersionTLS13}
 	var ops []string
@@ -301,5 +315,77 @@ func checkC30(r *Result, rng *rand.Rand, thorough bool) {
 	compareWithModel(r, "tls", cases, il, runTLSOps)
 	if thePKI != nil {
 		os.RemoveAll(thePKI.dir)
+	}
+}
+
+// ---- the configured CA and nothing else ----
+// A client certificate is accepted only if it chains to the CA the export configures. The host's own trust store
+// must play no part, so the probe runs in a child process whose trust store (SSL_CERT_FILE) holds an unrelated CA
+// and presents a client certificate signed by that CA.
+
+func init() {
+	children["c30-foreign-ca"] = func(args []string) {
+		p := newPKI()
+		defer os.RemoveAll(p.dir)
+		// the unrelated CA of the host trust store was written by the parent; load it and sign a client certificate
+		caPEM, err1 := os.ReadFile(args[0])
+		caKeyPEM, err2 := os.ReadFile(args[1])
+		if err1 != nil || err2 != nil {
+			fmt.Println("step read-foreign-ca-failed")
+			return
+		}
+		pair, err := tls.X509KeyPair(caPEM, caKeyPEM)
+		if err != nil {
+			fmt.Println("step parse-foreign-ca-failed")
+			return
+		}
+		caCert, _ := x509.ParseCertificate(pair.Certificate[0])
+		c, k, _, _ := genCert("client-of-host-store-ca", caCert, pair.PrivateKey.(*ecdsa.PrivateKey), false)
+		foreignClient, _ := tls.X509KeyPair(c, k)
+		for _, auth := range []tls.ClientAuthType{tls.RequireAndVerifyClientCert, tls.VerifyClientCertIfGiven} {
+			_, port, stop, e := p.startTLS(tls.VersionTLS12, tls.VersionTLS13, auth, true)
+			if e != "" {
+				fmt.Println("step start-failed " + e)
+				return
+			}
+			for _, v := range []uint16{tls.VersionTLS12, tls.VersionTLS13} {
+				okOwn, _, _ := p.dial(port, v, &p.clientCA)
+				okForeign, _, _ := p.dial(port, v, &foreignClient)
+				fmt.Printf("result auth=%d tls=%#x configured-ca-client=%v host-store-ca-client=%v\n", auth, v, okOwn, okForeign)
+			}
+			stop()
+		}
+	}
+}
+
+func foreignCAProbe(r *Result) {
+	dir, err := os.MkdirTemp("", "verif-c30-host-")
+	if err != nil {
+		return
+	}
+	defer os.RemoveAll(dir)
+	caPEM, caKeyPEM, _, _ := genCert("host-trust-store-ca", nil, nil, true)
+	store, key := filepath.Join(dir, "host-ca.pem"), filepath.Join(dir, "host-ca.key")
+	must(os.WriteFile(store, caPEM, 0o600))
+	must(os.WriteFile(key, caKeyPEM, 0o600))
+	lines, stderr, finished := runChildEnv("c30-foreign-ca", []string{"SSL_CERT_FILE=" + store, "SSL_CERT_DIR=" + filepath.Join(dir, "none")}, store, key)
+	r.noteCase("foreign-ca-client", true)
+	if !finished {
+		r.Notes = append(r.Notes, "foreign-CA probe did not finish: "+strings.Join(lines, " | ")+" "+stderr)
+		return
+	}
+	for _, l := range lines {
+		if !strings.HasPrefix(l, "result ") {
+			continue
+		}
+		r.count("foreign-ca-handshakes")
+		if strings.Contains(l, "host-store-ca-client=true") {
+			r.violate(Violation{Class: "C30/foreign-ca-client-accepted", What: "a client certificate that chains to a CA of the host trust store, not to the configured CAFile, completed the handshake and was served: " + l, Ops: []string{"tls foreign-ca"}})
+			return
+		}
+		if strings.Contains(l, "configured-ca-client=false") {
+			r.violate(Violation{Class: "C30/own-ca-client-refused", What: "a client certificate signed by the configured CA was refused: " + l, Ops: []string{"tls foreign-ca"}})
+			return
+		}
 	}
 }
